@@ -52,6 +52,7 @@ type runCtx struct {
 	extraSamples     []map[string]interface{}
 	inconclusive     []string
 	violations       []confirmed
+	selfValidated    int
 }
 
 type confirmed struct {
@@ -139,6 +140,11 @@ func runProperty(repo, root, id, tier, only string) int {
 		prop.Extra(ctx)
 	}
 
+	os.RemoveAll(filepath.Join(root, "replays", prop.ID))
+	validated, stProblems := selfTest(ctx, results)
+	ctx.selfValidated = validated
+	ctx.inconclusive = append(ctx.inconclusive, stProblems...)
+
 	// triage
 	known := loadKnown(root)
 	exit := 0
@@ -146,7 +152,6 @@ func runProperty(repo, root, id, tier, only string) int {
 	inconclusive = append(inconclusive, ctx.inconclusive...)
 	nViol := 0
 	replays := 0
-	os.RemoveAll(filepath.Join(root, "replays", prop.ID))
 	printedKnown := map[string]bool{}
 	for _, r := range results {
 		if r == nil {
@@ -285,6 +290,9 @@ func mergeResult(dst, src *engine.HarnessResult) {
 	if len(dst.Samples) < 6 {
 		dst.Samples = append(dst.Samples, src.Samples...)
 	}
+	if len(dst.Witnesses) < 6 {
+		dst.Witnesses = append(dst.Witnesses, src.Witnesses...)
+	}
 }
 
 func mergeStats(dst *engine.Stats, src engine.Stats) {
@@ -316,7 +324,7 @@ func runOne(ctx *runCtx, h HSpec) *hResult {
 	if ctx.tier == "thorough" {
 		defTimeout = 120000
 	}
-	cfg := engine.Config{Tier: ctx.tier, MapPerms: h.Perms, MaxStrLen: pick(h.MaxStrLen, ctx.tier, 8), MaxWallS: 900}
+	cfg := engine.Config{Tier: ctx.tier, MapPerms: h.Perms, MaxStrLen: pick(h.MaxStrLen, ctx.tier, 8), MaxWallS: 900, Witnesses: 4}
 	if ctx.tier == "thorough" {
 		cfg.MaxWallS = 5400
 	}
@@ -394,6 +402,8 @@ func modelJSON(v engine.Violation, tier string) []byte {
 const replayTestTmpl = `package PKG
 
 import (
+	"bytes"
+	"encoding/json"
 	"os"
 	"testing"
 )
@@ -417,6 +427,42 @@ func TestVFReplay(t *testing.T) {
 		}
 	}
 }
+
+// TestVFSelfTest: translator validation (DESIGN 3.16). Runs every witness
+// model natively and writes the observation traces.
+func TestVFSelfTest(t *testing.T) {
+	in := os.Getenv("VF_SELFTEST_IN")
+	if in == "" {
+		t.Skip("no self-test input")
+	}
+	b, err := os.ReadFile(in)
+	if err != nil {
+		t.Fatalf("VF-SETUP: %v", err)
+	}
+	var cases []struct {
+		Harness string
+		Model   map[string]interface{}
+	}
+	dec := json.NewDecoder(bytes.NewReader(b))
+	dec.UseNumber()
+	if err := dec.Decode(&cases); err != nil {
+		t.Fatalf("VF-SETUP: %v", err)
+	}
+	out := make([][]string, len(cases))
+	for i, c := range cases {
+		f := vfHarnesses[c.Harness]
+		if f == nil {
+			out[i] = []string{"unknown harness"}
+			continue
+		}
+		vfSetModel(c.Model)
+		out[i] = vfRunTrace(f)
+	}
+	ob, _ := json.Marshal(out)
+	if err := os.WriteFile(os.Getenv("VF_SELFTEST_OUT"), ob, 0o644); err != nil {
+		t.Fatalf("VF-SETUP: %v", err)
+	}
+}
 `
 
 // writeReplay materialises a replay directory; returns the go test argv.
@@ -427,8 +473,22 @@ func writeReplay(repo, root string, h HSpec, v engine.Violation, tier, dir strin
 	if err := os.WriteFile(filepath.Join(dir, "model.json"), modelJSON(v, tier), 0o644); err != nil {
 		return err
 	}
-	// overlay: harness sources of this package + api shim + test file
-	hdir := filepath.Join(root, "harness", h.Dir)
+	if err := writeOverlay(repo, root, h.Dir, dir, h.Tries); err != nil {
+		return err
+	}
+	meta := map[string]interface{}{
+		"harness": h.Fn, "dir": h.Dir, "obligation": v.Msg, "kind": v.Kind, "tags": v.Tags, "tier": tier,
+		"cmd": fmt.Sprintf("cd %s && VF_MODEL=%s VF_HARNESS=%s go test -vet=off -count=1 -overlay %s -run '^TestVFReplay$' ./%s",
+			repo, filepath.Join(dir, "model.json"), h.Fn, filepath.Join(dir, "overlay.json"), h.Dir),
+	}
+	mb, _ := json.MarshalIndent(meta, "", " ")
+	return os.WriteFile(filepath.Join(dir, "meta.json"), mb, 0o644)
+}
+
+// writeOverlay writes overlay.json (harness sources of the package, the API
+// shim and the replay/self-test test file) into dir.
+func writeOverlay(repo, root, pkgDir, dir string, tries int) error {
+	hdir := filepath.Join(root, "harness", pkgDir)
 	ents, err := os.ReadDir(hdir)
 	if err != nil {
 		return err
@@ -437,7 +497,7 @@ func writeReplay(repo, root string, h HSpec, v engine.Violation, tier, dir strin
 	pkg := "main"
 	for _, e := range ents {
 		if strings.HasPrefix(e.Name(), "zz_vf_") && strings.HasSuffix(e.Name(), ".go") {
-			repl[filepath.Join(repo, h.Dir, e.Name())] = filepath.Join(hdir, e.Name())
+			repl[filepath.Join(repo, pkgDir, e.Name())] = filepath.Join(hdir, e.Name())
 			b, _ := os.ReadFile(filepath.Join(hdir, e.Name()))
 			for _, l := range strings.Split(string(b), "\n") {
 				if strings.HasPrefix(l, "package ") {
@@ -453,8 +513,7 @@ func writeReplay(repo, root string, h HSpec, v engine.Violation, tier, dir strin
 	}
 	apiPath := filepath.Join(dir, "zz_vf_api.go")
 	os.WriteFile(apiPath, []byte(strings.Replace(string(api), "package PKG", "package "+pkg, 1)), 0o644)
-	repl[filepath.Join(repo, h.Dir, "zz_vf_api.go")] = apiPath
-	tries := h.Tries
+	repl[filepath.Join(repo, pkgDir, "zz_vf_api.go")] = apiPath
 	if tries == 0 {
 		tries = 1
 	}
@@ -462,16 +521,124 @@ func writeReplay(repo, root string, h HSpec, v engine.Violation, tier, dir strin
 	test = strings.Replace(test, "TRIES", fmt.Sprint(tries), 1)
 	testPath := filepath.Join(dir, "zz_vf_replay_test.go.txt")
 	os.WriteFile(testPath, []byte(test), 0o644)
-	repl[filepath.Join(repo, h.Dir, "zz_vf_replay_test.go")] = testPath
+	repl[filepath.Join(repo, pkgDir, "zz_vf_replay_test.go")] = testPath
 	ovb, _ := json.MarshalIndent(map[string]interface{}{"Replace": repl}, "", " ")
-	os.WriteFile(filepath.Join(dir, "overlay.json"), ovb, 0o644)
-	meta := map[string]interface{}{
-		"harness": h.Fn, "dir": h.Dir, "obligation": v.Msg, "kind": v.Kind, "tags": v.Tags, "tier": tier,
-		"cmd": fmt.Sprintf("cd %s && VF_MODEL=%s VF_HARNESS=%s go test -vet=off -count=1 -overlay %s -run '^TestVFReplay$' ./%s",
-			repo, filepath.Join(dir, "model.json"), h.Fn, filepath.Join(dir, "overlay.json"), h.Dir),
+	return os.WriteFile(filepath.Join(dir, "overlay.json"), ovb, 0o644)
+}
+
+// selfTest is the translator validation of DESIGN 3.16: witness models of
+// sampled paths are executed concretely by the engine and natively by the
+// real build; the observation traces must be identical.
+func selfTest(ctx *runCtx, results []*hResult) (validated int, problems []string) {
+	type tcase struct {
+		Harness string
+		Model   map[string]interface{}
+		engine  []string
 	}
-	mb, _ := json.MarshalIndent(meta, "", " ")
-	return os.WriteFile(filepath.Join(dir, "meta.json"), mb, 0o644)
+	byDir := map[string][]*tcase{}
+	s := engine.NewSolver(5000)
+	defer s.Close()
+	for _, r := range results {
+		if r == nil || r.res == nil {
+			continue
+		}
+		fn := ctx.prog.Func(modPath+r.spec.Dir, r.spec.Fn)
+		if fn == nil {
+			continue
+		}
+		for _, w := range r.res.Witnesses {
+			m := engine.NewMachine(ctx.prog.Prog, s, engine.Config{Tier: ctx.tier}, nil)
+			var tr []string
+			var problem string
+			func() {
+				defer func() {
+					if rec := recover(); rec != nil {
+						problem = fmt.Sprintf("engine crash in concrete run: %v", rec)
+					}
+				}()
+				tr, problem = m.RunConcrete(fn, w)
+			}()
+			if problem != "" {
+				problems = append(problems, fmt.Sprintf("%s: self-test: %s", r.spec.Fn, problem))
+				continue
+			}
+			model := map[string]interface{}{"tier": ctx.tier}
+			for k, mv := range w {
+				switch mv.Sort {
+				case engine.SString:
+					model[k] = mv.S
+				case engine.SInt:
+					model[k] = mv.I
+				default:
+					model[k] = mv.B
+				}
+			}
+			byDir[r.spec.Dir] = append(byDir[r.spec.Dir], &tcase{Harness: r.spec.Fn, Model: model, engine: tr})
+		}
+	}
+	dirs := make([]string, 0, len(byDir))
+	for d := range byDir {
+		dirs = append(dirs, d)
+	}
+	sort.Strings(dirs)
+	for _, d := range dirs {
+		cases := byDir[d]
+		dir := filepath.Join(ctx.root, "replays", ctx.prop.ID, "selftest-"+strings.ReplaceAll(d, "/", "_"))
+		os.MkdirAll(dir, 0o755)
+		if err := writeOverlay(ctx.repo, ctx.root, d, dir, 1); err != nil {
+			problems = append(problems, "self-test: "+err.Error())
+			continue
+		}
+		in, _ := json.Marshal(cases)
+		os.WriteFile(filepath.Join(dir, "selftest_in.json"), in, 0o644)
+		outPath := filepath.Join(dir, "selftest_out.json")
+		os.Remove(outPath)
+		cmd := exec.Command("go", "test", "-vet=off", "-count=1", "-overlay", filepath.Join(dir, "overlay.json"), "-run", "^TestVFSelfTest$", "./"+d)
+		cmd.Dir = ctx.repo
+		cmd.Env = append(os.Environ(), "GOFLAGS=-mod=mod", "GOPROXY=off", "GOSUMDB=off", "GOTOOLCHAIN=local",
+			"VF_SELFTEST_IN="+filepath.Join(dir, "selftest_in.json"), "VF_SELFTEST_OUT="+outPath)
+		out, _ := cmd.CombinedOutput()
+		ob, err := os.ReadFile(outPath)
+		if err != nil {
+			problems = append(problems, fmt.Sprintf("self-test in %s: native run produced no traces: %s", d, lastLines(string(out), 8)))
+			continue
+		}
+		var native [][]string
+		if json.Unmarshal(ob, &native) != nil || len(native) != len(cases) {
+			problems = append(problems, fmt.Sprintf("self-test in %s: malformed native traces", d))
+			continue
+		}
+		for i, c := range cases {
+			if strings.Join(c.engine, "\n") == strings.Join(native[i], "\n") {
+				validated++
+				continue
+			}
+			diff := ""
+			for j := 0; j < len(c.engine) || j < len(native[i]); j++ {
+				e, n := "<none>", "<none>"
+				if j < len(c.engine) {
+					e = c.engine[j]
+				}
+				if j < len(native[i]) {
+					n = native[i][j]
+				}
+				if e != n {
+					diff = fmt.Sprintf("first difference at step %d: engine %q vs native %q", j, e, n)
+					break
+				}
+			}
+			mb, _ := json.Marshal(c.Model)
+			problems = append(problems, fmt.Sprintf("%s: TRANSLATOR SELF-TEST MISMATCH: %s (model %s)", c.Harness, diff, truncateS(string(mb), 400)))
+		}
+	}
+	return
+}
+
+func truncateS(s string, n int) string {
+	if len(s) > n {
+		return s[:n] + "..."
+	}
+	return s
 }
 
 // runReplay executes the native test; ok=true when the violation reproduces.
@@ -572,6 +739,7 @@ func writeEvidence(root string, prop *Prop, tier string, seed int, results []*hR
 	extraObl, extraDis := 0, 0
 	var notes []string
 	if ctx != nil {
+		replays += ctx.selfValidated
 		extraObl, extraDis = ctx.extraObligations, ctx.extraDischarged
 		notes = ctx.extraNotes
 		for _, s := range ctx.extraSamples {
@@ -592,24 +760,30 @@ func writeEvidence(root string, prop *Prop, tier string, seed int, results []*hR
 		"obligations":                   asserts + extraObl + nViol + len(inconclusive),
 		"discharged":                    asserts + extraDis,
 		"exhaustive":                    len(inconclusive) == 0,
-		"explanation":                   "states = feasible complete paths of the harnesses under symbolic execution of /repo's go/ssa; transitions = SSA instructions interpreted; obligations = solver queries (assertions, panic-freedom) that had to be unsat; every number is measured on this run.",
-		"functions_encoded":             fl,
-		"bounds":                        prop.Bounds,
-		"outside_bounds":                prop.Outside,
-		"stubs":                         prop.Stubs,
-		"pruned_paths":                  pruned,
-		"decisions":                     decisions,
-		"solver_queries":                queries,
-		"solver_unsat":                  unsat,
-		"solver_sat":                    sat,
-		"solver_unknown":                unknown,
-		"solver_time_s":                 solverTime,
-		"unwinding_checks":              unwinds,
-		"vacuity_witnesses":             vac,
-		"harnesses":                     perHarness,
-		"inconclusive":                  inconclusive,
-		"notes":                         notes,
-		"solvers":                       "z3 4.8.12 (primary), z3 5.1.0 and cvc5 1.0.3 as fall-backs on unknown",
+		"selftest_traces_matched": func() int {
+			if ctx != nil {
+				return ctx.selfValidated
+			}
+			return 0
+		}(),
+		"explanation":       "traces_validated_against_impl = witness models of sampled paths run both concretely in the engine and natively in the real build with identical observation traces (translator self-test) + replayed counterexamples; states = feasible complete paths of the harnesses under symbolic execution of /repo's go/ssa; transitions = SSA instructions interpreted; obligations = solver queries (assertions, panic-freedom) that had to be unsat; every number is measured on this run.",
+		"functions_encoded": fl,
+		"bounds":            prop.Bounds,
+		"outside_bounds":    prop.Outside,
+		"stubs":             prop.Stubs,
+		"pruned_paths":      pruned,
+		"decisions":         decisions,
+		"solver_queries":    queries,
+		"solver_unsat":      unsat,
+		"solver_sat":        sat,
+		"solver_unknown":    unknown,
+		"solver_time_s":     solverTime,
+		"unwinding_checks":  unwinds,
+		"vacuity_witnesses": vac,
+		"harnesses":         perHarness,
+		"inconclusive":      inconclusive,
+		"notes":             notes,
+		"solvers":           "z3 4.8.12 (primary), z3 5.1.0 and cvc5 1.0.3 as fall-backs on unknown",
 	}
 	ev := map[string]interface{}{
 		"property_id": prop.ID,
